@@ -374,8 +374,11 @@ def run_history(v, geom, ops, backends, scratch, hid, drop_old=True, plain_ctor=
     pat = M.pattern(mask)
     model = M.RefArray(S, I, mask)
     exps = []
+    written_after = {}
     for j, op in enumerate(ops):
         exps.append(apply_to_model(model, op, j))
+        if op[0] == "dump":
+            written_after[j] = model.written_linear()
         v.count(f"op_{op[0]}")
         v.count(f"pair:{pat}:{op[0]}")
         if exps[-1][0] == "raise":
@@ -479,6 +482,18 @@ def run_history(v, geom, ops, backends, scratch, hid, drop_old=True, plain_ctor=
                     v.bad(exc_sig(err, "dump") + tail() + f"/{kc}",
                           f"dump{M.show_key(key)} of a valid key (external shape {S}) raised {exc_msg(err)}", **wit(j))
                     break
+                # localise a dump that wrote the wrong elements: the written set right after the dump
+                want = written_after[j]
+                try:
+                    ml = [not bool(x) for x in arr.mask_linear()]
+                    hi = [bool(arr.has_index(i)) for i in range(len(want))]
+                except Exception:  # noqa: BLE001  (reported by the read ops themselves)
+                    ml = hi = None
+                if ml is not None and ml != want and hi != want:
+                    v.bad(f"dump:written-set-mismatch/{name}/{gcls}/{kc}",
+                          f"after dump{M.show_key(key)} the written elements (linear, per has_index) are {hi}, "
+                          f"model expects {want}", **wit(j, got=hi, expected=want))
+                    break
                 continue
             # ---------------- reads
             try:
@@ -509,7 +524,7 @@ def run_history(v, geom, ops, backends, scratch, hid, drop_old=True, plain_ctor=
             if got != exp[1]:
                 g2 = "internal" if I else "no-internal"
                 v.bad(f"{kind}:mismatch/{name}/{g2}" + (f"/{'slice-key' if kc == 'slice-key' else 'int-key'}" if kc else "")
-                      + f"/{unw}" + ("/old-instance-dropped" if reopened and drop_old and name in SLOW else ""),
+                      + f"/{unw}",
                       f"{kind} {op[1:]} returned {short(got)}; model expects {short(exp[1])}",
                       **wit(j, got=short(got, 800), expected=short(exp[1], 800)))
                 nbad += 1
@@ -535,8 +550,8 @@ def backends_for(idx, every):
 
 
 # ======================================================================== plan / run_case
-EXH_CHUNK = 250
-RAND_BATCH = 150
+EXH_CHUNK = 120
+RAND_BATCH = 75
 
 
 def plan(tier, seed):
@@ -547,7 +562,7 @@ def plan(tier, seed):
             parts = max(1, -(-n // EXH_CHUNK))
             for p in range(parts):
                 descs.append({"kind": "exh", "g": gi, "set": which, "part": p, "of": parts, "tier": tier})
-    nb = 80 if tier == "quick" else 2000
+    nb = 160 if tier == "quick" else 4000
     for b in range(nb):
         descs.append({"kind": "rand", "seed": seed, "batch": b, "n": RAND_BATCH})
     # heavy first is not needed; interleave so that progress is even
@@ -610,7 +625,7 @@ def run_case(desc):
             v.count("histories_random")
             if nd:
                 keys.append(hist_key(geom, backends, ops))
-            if sample is None and i == 7 and desc["batch"] % 40 == 0:
+            if sample is None and i == 7 and desc["batch"] % 80 == 0:
                 sample = {"shape": geom[0], "internal_shape": geom[1], "shape_mask": geom[2], "backends": backends,
                           "ops": ops[:20], "n_ops": len(ops)}
     return v.result(keys=keys, sample=sample)
